@@ -2,6 +2,7 @@
 //! driver (`sim`) that applies one stimulus to one engine configuration.
 
 pub mod design;
+pub mod reduce;
 pub mod sim;
 
 pub use design::{Design, GenOpts, Port, generate};
